@@ -3,6 +3,7 @@ CONSTANTS
  MaxEdges = 1
  Mode = "dag"
  AllowBranch = FALSE
+ MaxBr = 1
 SPECIFICATION Spec
 CONSTRAINT HW
 POSTCONDITION Post
